@@ -983,7 +983,7 @@ class Interp(seq_detached.DetachedMixin, S.SeqRun):
                 pass
 
     def dispatch(self, name, a, b, c):
-        if name.startswith('r_') and self.knobs.get('hook_mode') in ('modify', 'create'):
+        if name.startswith('r_') and self.knobs.get('hook_mode') in ('modify', 'create', 'link'):
             # hooks that edit data run inside the auto-flush a read may trigger; the expected answer is
             # computed from the model before the read, so let the (always legal) flush happen first
             self.op_flush()
